@@ -52,17 +52,24 @@ def gen_case(rng, big=False):
     footer = rng.choice([None, None, "", "f", "footer " * 6])
     titles = {f: rng.choice(T.TITLES_POOL[f]) for f in T.FIELDS}
     later = rng.choice([None, 'derive', 'grow', 'interleave', 'edit-bounds'])
-    return dict(recs=recs, fmt=fmt, cols=cols, limits=limits, lim_arg=lim_arg, header=header, footer=footer,
+    centered = rng.choice([None, None, 'a', 'b', 'd'])
+    return dict(centered=centered, recs=recs, fmt=fmt, cols=cols, limits=limits, lim_arg=lim_arg, header=header, footer=footer,
                 titles=titles, later=later, grow_by=rng.choice([1, 1, -1]),
                 new_bounds=[(rng.choice([0, 1, 2, 3]), rng.choice([3, 4, 6, 9, 30])) for _ in range(3)],
                 extra_recs=T.gen_records(rng, (1, 3, 6)))
+
+
+def rng_free_len(c):
+    """number of records of the derived table (deterministic in the case)"""
+    return 3 + (len(c['fmt']) * 7 + len(c['recs'])) % 16
 
 
 def judge(ctx, c, case):
     ctx.evaluated()
     try:
         t = PPTable(c['recs'], fields=T.FIELDS, fmt=c['fmt'], limits=c['lim_arg'], header=c['header'],
-                    footer=c['footer'], fields_types=T.mk_field_types(), fields_titles=dict(c['titles']))
+                    footer=c['footer'], fields_types=T.mk_field_types(c.get('centered')),
+                    fields_titles=dict(c['titles']))
         lines = T.render(t).split("\n")
     except Exception as err:
         ctx.violation("table-raises", {"type": type(err).__name__, "msg": str(err)[:200], "fmt": c['fmt']}, case)
@@ -95,6 +102,27 @@ def judge(ctx, c, case):
             ctx.violation("table-changed-by-a-table-built-from-its-format-object",
                           {"before": lines[:8], "after": again[:8]}, case)
             return
+        if c['lim_arg'] is None:
+            # a table that takes everything (columns, bounds, record limits) from the format object, on other
+            # records, is a table like any other: the layout model applies
+            recs3 = (c['extra_recs'] * 3)[:rng_free_len(c)]
+            try:
+                t3 = PPTable(recs3, fmt_obj=t.fmt, header=c['header'], footer=c['footer'])
+                lines3 = T.render(t3).split("\n")
+            except Exception as err:
+                ctx.violation("table-raises", {"type": type(err).__name__, "msg": str(err)[:200], "step": step}, case)
+                return
+            lim3 = c['limits']
+            if lim3 is None and not c['fmt'].endswith(";*") and len(recs3) <= 25:
+                lim3 = (10 ** 6, 10 ** 6)
+            if c['fmt'].endswith(";*"):
+                lim3 = (10 ** 6, 10 ** 6)
+            ctx.count("tables_built_from_a_format_object_checked")
+            problems = T.check_layout(lines3, recs3, cols, lim3, c['header'], c['footer'], c['titles'])
+            for mech, detail in problems[:4]:
+                ctx.violation(mech, dict(detail, fmt=c['fmt'], step="table built from the format object"), case)
+            if problems:
+                return
     elif step == 'interleave':
         # two different tables are consumed line by line in turns; each must give what it gives alone
         ctx.count("tables_consumed_in_turns_with_another_table")
